@@ -139,3 +139,48 @@ func TestProbeRecv(t *testing.T) {
 		})
 	}
 }
+
+// TestProbeRecvInit: crafted init segments must be refused, not crash the handler.
+func TestProbeRecvInit(t *testing.T) {
+	_ = logging.InitSlog("error", "text")
+	src := filepath.Join("testdata", "zero_3.84s", "video-500Kbps")
+	cases := map[string]func(f *mp4.File){
+		"empty stsd": func(f *mp4.File) {
+			stsd := f.Init.Moov.Trak.Mdia.Minf.Stbl.Stsd
+			stsd.Children = nil
+			stsd.AvcX = nil
+			stsd.SampleCount = 0
+		},
+		"avcC without SPS": func(f *mp4.File) {
+			f.Init.Moov.Trak.Mdia.Minf.Stbl.Stsd.AvcX.AvcC.DecConfRec.SPSnalus = nil
+		},
+	}
+	for name, mod := range cases {
+		t.Run(name, func(t *testing.T) {
+			tmpDir, err := os.MkdirTemp("", "recv-probe-init")
+			if err != nil {
+				t.Fatal(err)
+			}
+			defer os.RemoveAll(tmpDir)
+			opts := Options{prefix: "/upload", timeShiftBufferDepthS: 30, storage: tmpDir}
+			ctx, cancel := context.WithCancel(context.Background())
+			defer cancel()
+			receiver, err := NewReceiver(ctx, &opts, &Config{Channels: []ChannelConfig{{Name: "ch"}}})
+			if err != nil {
+				t.Fatal(err)
+			}
+			data := reencode(t, filepath.Join(src, "init_org.cmfv"), mod)
+			req := httptest.NewRequest(http.MethodPut, "/upload/ch/video/init.cmfv", bytes.NewReader(data))
+			w := httptest.NewRecorder()
+			func() {
+				defer func() {
+					if e := recover(); e != nil {
+						t.Fatalf("handler panicked: %v", e)
+					}
+				}()
+				receiver.SegmentHandlerFunc(w, req)
+			}()
+			t.Logf("status %d", w.Code)
+		})
+	}
+}
